@@ -102,6 +102,32 @@ Proof.
   apply (H2 t); rewrite T_upd by exact Ht; rewrite Nat.eqb_refl; [exact Hl|exact Hhb].
 Qed.
 
+Definition J11P (s : st) : Prop :=
+  forall u p m, refs (T s u) > 0 -> nth_error (msgs s) p = Some m ->
+    (forall m', In m' (firstn p (msgs s)) -> ~ hb m' (clk (T s u))) -> refs (T s u) <= val m.
+(* one thread's clock grows, it gains no reference, the messages stay *)
+Lemma J11_upd s t x' W R l :
+  Inv s -> t < length (ths s) -> cle (clk (T s t)) (clk x') -> refs x' <= refs (T s t) ->
+  J11P {| msgs := msgs s; Wc := W; Rc := R; live := l; ths := upd (ths s) t x' |}.
+Proof.
+  intros I Ht Hcc Hr u p m. cbn [msgs]. rewrite T_upd by exact Ht.
+  destruct (Nat.eqb_spec u t) as [->|Hne]; [|apply (J11 s I u p m)].
+  intros Hr' Hn Hun. assert (refs (T s t) <= val m); [|lia].
+  apply (J11 s I t p m); [lia|exact Hn|]. intros m' Hin Hhb. apply (Hun m' Hin). eapply hb_mono; eauto.
+Qed.
+(* thread t publishes a message m0 that counts at least everybody's references afterwards *)
+Lemma J11_cons s t x' m0 W R l :
+  Inv s -> t < length (ths s) -> hb m0 (clk x') ->
+  (forall u, refs (T {| msgs := m0 :: msgs s; Wc := W; Rc := R; live := l; ths := upd (ths s) t x' |} u) <= val m0) ->
+  J11P {| msgs := m0 :: msgs s; Wc := W; Rc := R; live := l; ths := upd (ths s) t x' |}.
+Proof.
+  intros I Ht Hhb Hall u p m. destruct p as [|p]; cbn [msgs nth_error firstn].
+  - intros _ [= <-] _. apply Hall.
+  - clear Hall. rewrite T_upd by exact Ht. destruct (Nat.eqb_spec u t) as [->|Hne].
+    + intros _ _ Hun. exfalso. apply (Hun m0); [left; reflexivity|exact Hhb].
+    + intros Hr Hn Hun. apply (J11 s I u p m Hr Hn). intros m' Hin. apply Hun. right. exact Hin.
+Qed.
+
 Ltac pw_rw := repeat rewrite ?get_setc, ?get_tick, ?get_join, ?get_single, ?get_nil, ?Nat.eqb_refl.
 Ltac pw_case := repeat match goal with |- context[Nat.eqb ?a ?b] => destruct (Nat.eqb_spec a b); subst end.
 Ltac pw :=
@@ -162,4 +188,5 @@ Proof.
     + apply (J8 s I u).
   - intros _ H0. rewrite Htot in H0. pose proof (total_ge (ths s) t). unfold T, getth in *. lia.
   - apply J10_upd; auto. intros (c & Hc). destruct (J10 s I c t Hc) as (_ & _ & Hr' & _ & He' & _). auto.
+  - apply J11_upd; auto.
 Qed.
